@@ -213,6 +213,7 @@ mod c19;
 mod c20;
 mod fragspace;
 mod pmachine;
+pub mod reps;
 mod scale;
 
 pub fn all() -> Vec<PropDef> {
